@@ -90,11 +90,12 @@ def evaluate_complete(case):
         v = next(i for i, r in enumerate(rows) if r != 15)
         return bad("complete accessor of order %d misses an arc at vertex %d" % (k, v))
     acc[:] = -1  # the caller owns the returned array; a later call must still return the complete graph
-    second = lib_call(dsw.get_complete_accessor, observed_length=k)
+    # the second call runs with the documented progress flag (orders up to 8: one line of output per vertex)
+    second = lib_call(dsw.get_complete_accessor, observed_length=k, **({"verbose": True} if k <= 8 else {}))
     try:
         if isinstance(second, Raised) or any(r != 15 for r in gens.rows_of_accessor(second, k)):
-            return bad("get_complete_accessor(%d) is not complete on a second call after the caller edited the "
-                       "first result" % k)
+            return bad("get_complete_accessor(%d%s) is not complete on a second call after the caller edited the "
+                       "first result" % (k, ", verbose=True" if k <= 8 else ""))
     except ValueError as exc:
         return bad("complete accessor of order %d (second call): %s" % (k, exc))
     return Outcome(True, True, ["complete", "k=%d" % k])
@@ -103,14 +104,27 @@ def evaluate_complete(case):
 @st.composite
 def produced_cases(draw, tier):
     k = draw(st.sampled_from([1, 2, 2, 3, 3, 4] if tier == "quick" else [1, 2, 3, 3, 4, 4, 5]))
-    how = draw(st.sampled_from(["valid", "coding", "latter_map", "matrix", "nasty", "via_latter_map"]))
+    how = draw(st.sampled_from(["valid", "coding", "latter_map", "matrix", "nasty", "via_latter_map",
+                                "matrix_extra_arc"]))
     if how in ("valid", "coding", "latter_map") and draw(st.sampled_from([False] * 9 + [True])):
         k = draw(st.sampled_from([6, 7, 8, 8]))  # vertex indices beyond 2^15
-    if how == "matrix" and k > 4:
+    if how in ("matrix", "matrix_extra_arc") and k > 4:
         k = 4
+    if how == "matrix_extra_arc" and k < 2:
+        k = 2
     if how == "nasty" and k > 3:
         k = 3
-    case = {"k": k, "how": how}
+    case = {"k": k, "how": how, "verbose": draw(st.sampled_from([False, False, True]))}
+    if how == "matrix_extra_arc":
+        # arcs that are NOT shift-append, most of them just beside the window of the four successors
+        n = 4 ** k
+        extra = []
+        for _ in range(draw(st.integers(1, 3))):
+            u = draw(st.integers(0, n - 1))
+            near = ((4 * u) % n + draw(st.integers(-6, 9))) % n
+            w = draw(st.sampled_from([near, near, near, draw(st.integers(0, n - 1))]))
+            extra.append([u, w])
+        case["extra"] = extra
     if how in ("valid", "coding"):
         t = draw(st.integers(1, 3))
         dens = {1: None, 2: [0.6, 0.8, 0.9, 0.97], 3: [0.9, 0.97, 1.0]}[t] if how == "coding" else None
@@ -135,14 +149,15 @@ def evaluate_produced(case):
     accs = []
     if how == "valid":
         mask = gens.pooled(numpy.array([int(c) for c in case["mask"]], dtype=int), "mask")
-        res = lib_call(dsw.connect_valid_graph, observed_length=k, vertices=mask)
+        res = lib_call(dsw.connect_valid_graph, observed_length=k, vertices=mask, verbose=bool(case.get("verbose")))
         if isinstance(res, Raised):
             return Outcome(True, False, labels + ["raised:" + res.name]) if res.type is ValueError else \
                 bad("connect_valid_graph raised %r" % res, labels)
         accs.append(res)
     elif how == "coding":
         mask = gens.pooled(numpy.array([int(c) for c in case["mask"]], dtype=int), "mask")
-        res = lib_call(dsw.connect_coding_graph, observed_length=k, vertices=mask, threshold=case["t"])
+        res = lib_call(dsw.connect_coding_graph, observed_length=k, vertices=mask, threshold=case["t"],
+                       verbose=bool(case.get("verbose")))
         if isinstance(res, Raised):
             return Outcome(True, False, labels + ["raised:" + res.name]) if res.type is ValueError else \
                 bad("connect_coding_graph raised %r" % res, labels)
@@ -177,6 +192,21 @@ def evaluate_produced(case):
                 except ValueError as exc:
                     return bad("latter_map_to_accessor: %s" % exc, labels)
             accs.append(res)
+        elif how == "matrix_extra_arc":
+            matrix = numpy.zeros((4 ** k, 4 ** k), dtype=int)
+            for (u, w) in o.arcs(case["rows"], k):
+                matrix[u, w] = 1
+            illegal = [(u, w) for u, w in case["extra"] if w not in table[u]]
+            for u, w in case["extra"]:
+                matrix[u, w] = 1
+            res = lib_call(dsw.adjacency_matrix_to_accessor, matrix=matrix)
+            labels.append("illegal_arcs" if illegal else "extra_arcs_legal")
+            if isinstance(res, Raised):
+                if res.type is ValueError and illegal:
+                    return Outcome(True, True, labels + ["rejected"])
+                return bad("adjacency_matrix_to_accessor raised %r (extra arcs %r, illegal %r)"
+                           % (res, case["extra"], illegal), labels)
+            accs.append(res)  # whatever is converted must obey shift-append (that it is rejected at all is C14's claim)
         elif how == "matrix":
             matrix = numpy.zeros((4 ** k, 4 ** k), dtype=int)
             for (u, w) in o.arcs(case["rows"], k):
@@ -196,6 +226,8 @@ def evaluate_produced(case):
                     labels.append("nasty_raised")
                     break
                 accs.append(numpy.array(res[0], copy=True))
+    if case.get("verbose") and how in ("valid", "coding"):
+        labels.append("verbose")
     for acc in accs:
         try:
             gens.rows_of_accessor(numpy.asarray(acc), k)
@@ -216,7 +248,7 @@ SUBCHECKS = [
              exhaustive_space="complete accessors of order 1..6 (thorough: also 7, 9 and 11 = 4,194,304 rows), every entry", rule=RULE),
     SubCheck("produced_graphs", evaluate_produced, strategy=produced_cases, examples=(1200, 12000), shards=(8, 16),
              floors={"how:valid": 80, "how:coding": 80, "how:latter_map": 80, "how:matrix": 80, "how:nasty": 80,
-                     "how:via_latter_map": 80,
+                     "how:via_latter_map": 80, "illegal_arcs": 60, "verbose": 60,
                      "k=8": 6},
              rule=RULE),
 ]
